@@ -670,14 +670,14 @@ def r6_description_always_validated(repo=None):
 CURSOR_OWNERS = ("digital_rf_create_write_hdf5", "digital_rf_write_samples_to_file")
 
 
-def r7_cursor_has_one_owner(repo=None):
+def r7_cursor_has_one_owner(repo=None, rid="C05.R7"):
     """'write-once, forward-only': the library's write cursor (global_index) is what makes a write "at or before an index already
     written" recognisable.  It is set once by the constructor and advanced by the per-file write step after the data and the index
     of that file are written; no other function stores it.  A caller that saves it on entry and puts it back when a later part
     of the call fails makes the part already written writable again: the repeated call appends the same samples a second time,
     and the finalized file's block index is no longer strictly increasing (who-may-write table, owners frozen from the
     reference tree; static helpers are inlined into their callers before the table is read)."""
-    r = Rule("C05.R7", "the write cursor is stored only by its owners (constructor, per-file write step)")
+    r = Rule(rid, "the write cursor is stored only by its owners (constructor, per-file write step)")
     tu = cfront.lib(repo)
     n = 0
     for fname, fn in tu.functions.items():
@@ -698,12 +698,73 @@ def r7_cursor_has_one_owner(repo=None):
     return r
 
 
+def r9_cursor_anchored_with_the_offset(repo=None):
+    """'write-once, forward-only': the cursor (global_index) must end a call one past the last sample stored.  When the per-file
+    step continues in the open, unchunked file it re-positions the data-set offset *by the sample of this write*
+    (dataset_index = capacity - samples left: a forward skip inside the file) and later advances the cursor *relative* to its old
+    value.  That is right only if the cursor was anchored to the same sample first: otherwise it lags behind after a skip and a
+    later write at or before samples already stored is accepted and overwrites them.  On the CFG: no path from an absolute store
+    of dataset_index in this function reaches a relative advance of global_index without an absolute store of global_index from
+    the sample of this write."""
+    r = Rule("C05.R9", "where the per-file step re-positions the data-set offset by the sample, it anchors the cursor to it before advancing it relatively")
+    tu = cfront.lib(repo)
+    fn = tu.fn("digital_rf_write_samples_to_file")
+    F = fn.name
+    g = _cfg.build_c(fn)
+    nm = fn.calls(("digital_rf_get_subdir_file",))
+    if len(nm) != 1 or len(nm[0].args) < 2:
+        raise AnalysisError("%s: the call of digital_rf_get_subdir_file was not found exactly once" % F)
+    sample = nm[0].args[1].strip(casts=True).path()
+    D, G, A = [], [], []
+    for path, node, rhs, kind in clib.stores(fn):
+        if rhs is None or path not in (OBJ + "->dataset_index", OBJ + "->global_index"):
+            continue
+        nd = _node_of(g, node)
+        if nd is None:
+            continue
+        reads_self = any(x.kind == "MemberExpr" and x.path() == path for x in rhs.walk())
+        if path.endswith("dataset_index"):
+            if kind == "=" and not reads_self:
+                D.append((nd, node))
+        elif kind != "=" or reads_self:
+            A.append((nd, node))
+        else:
+            lf = clib.linform(rhs)
+            if lf is not None and sample is not None and lf.get(sample) == 1 and set(lf) <= {sample, 1}:
+                G.append((nd, node))
+    if not D:
+        raise AnalysisError("%s: no absolute store of dataset_index found (the re-positioning inside the open file was confirmed on "
+                            "the reference tree)" % F)
+    if not A:
+        r.ok("%s:%s %s" % (LIB, fn.line, F), "the cursor is never advanced relative to its old value")
+        r.guard(1)
+        return r
+    unanchored = g.reach([g.entry.id], avoid=[x.id for x, _ in G], skip_labels=("back",))
+    for nd, node in D:
+        # a path entry -> this store -> relative advance that passes no anchoring store, before or after it
+        reach = g.reach([b for b, l in g.succ[nd.id]], avoid=[x.id for x, _ in G], skip_labels=("back",)) if nd.id in unanchored else set()
+        hit = [(x, n_) for x, n_ in A if x.id in reach]
+        site = "%s:%s %s `%s`" % (LIB, node.line, F, node.nsrc[:60])
+        if hit:
+            x, n_ = hit[0]
+            r.violation(LIB, F, "%s ... %s" % (node.nsrc[:50], n_.nsrc[:50]), "the data-set offset is re-positioned by the sample of this write "
+                        "(line %d) but the cursor is advanced relative to its old value (line %d) without having been set to `%s`: "
+                        "after a write that skips forward inside the open file the cursor stays behind the samples stored, and a "
+                        "later write at or before them is accepted and overwrites them" % (node.line, n_.line, sample), line=n_.line)
+        else:
+            r.ok(site, "every path to a relative advance of the cursor passes `global_index = %s`" % sample)
+    r.guard(1)
+    return r
+
+
 def rules(repo=None):
-    return [lambda: r7_cursor_has_one_owner(repo), lambda: r8_checks_read_the_array_that_is_written(repo), lambda: r5_existing_target_refused_first(repo), lambda: r6_description_always_validated(repo), lambda: r1_validate_before_effect_c(repo), lambda: r2_validate_before_effect_py(repo),
+    return [lambda: r9_cursor_anchored_with_the_offset(repo), lambda: r7_cursor_has_one_owner(repo), lambda: r8_checks_read_the_array_that_is_written(repo), lambda: r5_existing_target_refused_first(repo), lambda: r6_description_always_validated(repo), lambda: r1_validate_before_effect_c(repo), lambda: r2_validate_before_effect_py(repo),
             lambda: r3_extension_reports_rejection(repo), lambda: r4_forward_only_guard(repo)]
 
 
 EXPLANATION = (
+    'R9: in the per-file write step no path from an absolute store of dataset_index (re-positioning by the sample inside the open '
+    'file) reaches a relative advance of global_index without the absolute store global_index = <sample of this write>. '
     'Ordering check. R1: in the C write path, error returns are classified by def-use as input rejections (their '
     'controlling conditions read only parameters, cursor/config fields and results of effect-free functions) and none is '
     'reachable from a persistent effect (file-system/HDF5 mutators, cursor-field stores, calls of may-effect functions) '
